@@ -129,6 +129,7 @@ func (db *DB) processFollowers(stop <-chan interface{}) {
 		metrics.FollowerJoined(f.FollowerID)
 		db.log.Debugf("Follower %v joined starting at offset %v", f.FollowerID, f.EarliestOffset)
 		followers[f.FollowerID] = f
+		verifEvent("leader.follower", f.Stream, db.opts.ID, f.FollowerID.Partition, f.FollowerID.ID, f.EarliestOffset)
 
 		partitions := streams[f.Stream]
 		if partitions == nil {
@@ -174,6 +175,7 @@ func (db *DB) processFollowers(stop <-chan interface{}) {
 				}
 				spec := &followSpec{followerID: f.FollowerID, offset: offset}
 				specs[f.FollowerID] = spec
+				verifEvent("leader.spec", t.Name, db.opts.ID, f.FollowerID.Partition, f.FollowerID.ID, keys, t.Offsets[db.opts.ID], f.EarliestOffset, offset)
 				db.log.Debugf("%v following %v starting at %v", f.FollowerID, t.Name, f.EarliestOffset)
 			}
 		}
@@ -297,6 +299,7 @@ func (db *DB) processFollowers(stop <-chan interface{}) {
 
 			for stream, startStream := range streams {
 				db.log.Debugf("Start following WAL for %v", stream)
+				verifEvent("leader.rewind", stream, db.opts.ID, earliestOffsetByStream[stream])
 				stopWALReader, err := db.followWAL(stream, earliestOffsetByStream[stream], startStream, requests)
 				if err != nil {
 					db.log.Errorf("Unable to start following wal: %v", err)
@@ -344,6 +347,7 @@ func (db *DB) processFollowers(stop <-chan interface{}) {
 				}
 			}
 
+			verifEvent("leader.route", entry.stream, db.opts.ID, offset, includedFollowers, result.partitions)
 			for _, included := range includedFollowers {
 				f := followers[included]
 				if f.failed() {
@@ -452,7 +456,7 @@ func (db *DB) enqueuePartitionRequests(parallelism int, requests chan *partition
 			}
 		default:
 			markQueued()
-			time.Sleep(1 * time.Second)
+			time.Sleep(verifScale("leaderpoll", 1*time.Second))
 		}
 	}
 }
@@ -640,7 +644,7 @@ func (to *tableWithOffsets) String() string {
 func (db *DB) followLeaders(stream string, newSubscriber chan *tableWithOffsets, stop <-chan interface{}) {
 	// Wait a little while for database to initialize
 	// TODO: make this more rigorous, perhaps using eventual or something
-	timer := time.NewTimer(30 * time.Second)
+	timer := time.NewTimer(verifScale("followinit", 30*time.Second))
 	var tables []*table
 	var offsets []common.OffsetsBySource
 	partitions := make(map[string]*common.Partition)
@@ -653,7 +657,7 @@ waitForTables:
 		case <-timer.C:
 			if len(tables) == 0 {
 				// Wait some more
-				timer.Reset(10 * time.Second)
+				timer.Reset(verifScale("followmore", 10*time.Second))
 			}
 			break waitForTables
 		case subscriber := <-newSubscriber:
@@ -675,7 +679,7 @@ waitForTables:
 				Offsets: os,
 			})
 			// Got some tables, don't wait as long this time
-			timer.Reset(5 * time.Second)
+			timer.Reset(verifScale("followidle", 5*time.Second))
 		}
 	}
 
@@ -756,6 +760,7 @@ func (db *DB) doFollowLeaders(stream string, tables []*table, offsets []common.O
 	}
 
 	db.opts.Follow(makeFollows, func(data []byte, newOffset wal.Offset, source int) error {
+		verifEvent("follower.msg", stream, db.opts.Partition, db.opts.ID, source, newOffset)
 		for i, in := range ins {
 			offsetsMx.Lock()
 			priorOffsets := offsets[i]
@@ -765,6 +770,7 @@ func (db *DB) doFollowLeaders(stream string, tables []*table, offsets []common.O
 			}
 			priorOffset := priorOffsets[source]
 			if newOffset.After(priorOffset) {
+				verifEvent("follower.recv", tables[i].Name, db.opts.Partition, db.opts.ID, source, newOffset, true)
 				select {
 				case in <- &walRead{data, newOffset, source}:
 					offsetsBySource := offsets[i]
@@ -780,8 +786,10 @@ func (db *DB) doFollowLeaders(stream string, tables []*table, offsets []common.O
 				}
 			} else {
 				offsetsMx.Unlock()
+				verifEvent("follower.recv", tables[i].Name, db.opts.Partition, db.opts.ID, source, newOffset, false)
 			}
 		}
+		verifEvent("follower.msgdone", stream, db.opts.Partition, db.opts.ID, source, newOffset)
 		return nil
 	})
 }
